@@ -73,6 +73,7 @@ type Ctx struct {
 	deadline time.Time
 	hitDL    bool
 	maxViol  int
+	perSig   map[string]int
 }
 
 func (c *Ctx) Mine(i int) bool { return i%c.NShards == c.Shard }
@@ -140,7 +141,13 @@ func (c *Ctx) Violation(sig, desc string, replay interface{}) {
 	}
 	c.mu.Lock()
 	defer c.mu.Unlock()
-	if len(c.res.Violations) < c.maxViol {
+	// at most maxViol records per signature (and per worker), so that many occurrences of one
+	// (known) finding can never crowd out a violation with another signature
+	if c.perSig == nil {
+		c.perSig = map[string]int{}
+	}
+	if c.perSig[sig] < c.maxViol {
+		c.perSig[sig]++
 		c.res.Violations = append(c.res.Violations, Violation{Sig: sig, Desc: desc, Replay: b})
 	} else {
 		c.res.Counters["violations_dropped"]++
@@ -230,7 +237,7 @@ func Main(ck Check) {
 }
 
 func newCtx(ck Check, tier string, seed int64, shard, n int) *Ctx {
-	c := &Ctx{Tier: tier, Shard: shard, NShards: n, Seed: seed, distinct: map[uint64]struct{}{}, maxViol: 20}
+	c := &Ctx{Tier: tier, Shard: shard, NShards: n, Seed: seed, distinct: map[uint64]struct{}{}, maxViol: 8}
 	c.res.Counters = map[string]int64{}
 	if ck.Budget != nil {
 		if d := ck.Budget(tier); d > 0 {
